@@ -215,7 +215,7 @@ BACKING = {
     "fn fullpacket": "seam: proved by Kani k1_fullpacket (complete, length <= 2^40)",
     "fn onepacket": "seam: proved by Kani k1_onepacket (complete, length <= 2^40)",
     "fn parse": "seam: proved by Kani k2_parse_* (complete per command byte, payload length <= 2^40)",
-    "fn client_handshake": "seam: proved by Kani k2_handshake_fixed (complete) and k2_handshake_user (bounded: user-name scan <= 12 bytes)",
+    "fn client_handshake": "seam: proved by Kani k2_handshake_fixed and k2_handshake_user_any (complete: payload length <= 2^40, memchr replaced by its specification instantiated at an arbitrary index); k2_handshake_user (bounded, 12-byte scan with the looping specification) kept as a cross-check",
     "fn parse_from": "seam: proved by Kani k3_parse_fixed / k3_parse_bytes / k3_parse_temporal (complete)",
     "fn try_from": "dependency (mysql_common ColumnType::try_from): checked by Kani k3_parse_* over all 256 codes",
     "fn sqlstate": "seam: proved by Kani k5_codes_* (sqlstate of every defined kind; complete over all u16 codes, sharded)",
